@@ -231,10 +231,16 @@ class RF24MeshNoMaster(NetworkMixin):
             super()._begin(new_addr)
             # print("new address assigned:", oct(new_addr))
             # do a double check as a manual retry in lack of using auto-ack
-            if self.lookup_node_id(self._addr) != self._id:
-                if self.lookup_node_id(self._addr) != self._id:
-                    super()._begin(NETWORK_DEFAULT_ADDR)
-                    continue
+            # (no children are accepted on an address that may still be given up)
+            parenthood, self._parenthood = self._parenthood, False
+            verified = (
+                self.lookup_node_id(self._addr) == self._id
+                or self.lookup_node_id(self._addr) == self._id
+            )
+            self._parenthood = parenthood
+            if not verified:
+                super()._begin(NETWORK_DEFAULT_ADDR)
+                continue
             return True
         return False
 
